@@ -165,6 +165,9 @@ pub fn run_family(name: &str, thorough: bool) -> Vec<Value> {
             decoder_family(&mut p, "message.from_bytes_be", &f.blind, thorough, true);
             p.dec("modulus".into(), "message.from_bytes_be", &modulus_r(), &["noncanonical"]);
         }
+        "consts" => {
+            consts::run(&mut p.out);
+        }
         "forgery" => {
             forgery::run_suite::<Sha>("sha256", &mut p.out);
             forgery::run_suite::<Shake>("shake256", &mut p.out);
@@ -352,5 +355,75 @@ pub mod forgery {
             });
             out.push(json!({"id": format!("{}-forgery-{}", name, ci), "call": "proof_verify(json)", "inputs": [hex::encode(js_s.as_bytes())], "outcome": outcome, "tags": ["forgery", "identity"]}));
         }
+    }
+}
+
+
+// ---- closed facts about the real ciphersuite constants (evaluation of closed terms: complete) ---------
+pub mod consts {
+    use super::*;
+    use bls12_381_plus::G1Projective;
+    use elliptic_curve::Group;
+    use zkryptium::bbsplus::ciphersuites::BbsCiphersuite;
+
+    fn fact(out: &mut Vec<Value>, id: &str, ok: bool, detail: String) {
+        out.push(json!({"id": id, "call": "const-eval", "inputs": [detail], "outcome": if ok { "ok:holds" } else { "err:VIOLATED" }, "tags": ["const"]}));
+    }
+
+    fn suite<CS: BbsCiphersuite>(name: &str, out: &mut Vec<Value>) -> Vec<(String, Vec<u8>)> {
+        let p1 = G1Projective::from_compressed_hex(CS::P1);
+        let ok = bool::from(p1.is_some());
+        fact(out, &format!("{name}.P1.decodes"), ok, CS::P1.to_string());
+        if ok {
+            let p = p1.unwrap();
+            fact(out, &format!("{name}.P1.not_identity"), !bool::from(p.is_identity()), String::new());
+            fact(out, &format!("{name}.P1.not_generator"), p != G1Projective::GENERATOR, String::new());
+        }
+        fact(out, &format!("{name}.API_ID.len<=64"), CS::API_ID.len() <= 64, format!("{}", CS::API_ID.len()));
+        fact(out, &format!("{name}.API_ID_BLIND.len<=64"), CS::API_ID_BLIND.len() <= 64, format!("{}", CS::API_ID_BLIND.len()));
+        fact(out, &format!("{name}.API_ID == ID || H2G_HM2S_"), CS::API_ID == [CS::ID, b"H2G_HM2S_"].concat().as_slice(), String::new());
+        fact(out, &format!("{name}.API_ID_BLIND == ID || BLIND_H2G_HM2S_"), CS::API_ID_BLIND == [CS::ID, b"BLIND_H2G_HM2S_"].concat().as_slice(), String::new());
+        fact(out, &format!("{name}.IKM_LEN == 32 && EXPAND_LEN == 48"), CS::IKM_LEN == 32 && CS::EXPAND_LEN == 48, String::new());
+        let blind_prefix = [b"BLIND_".as_slice(), CS::API_ID_BLIND].concat();
+        vec![
+            (format!("{name}.API_ID"), CS::API_ID.to_vec()),
+            (format!("{name}.API_ID_BLIND"), CS::API_ID_BLIND.to_vec()),
+            (format!("{name}.BLIND_||API_ID_BLIND"), blind_prefix),
+        ]
+    }
+
+    pub fn run(out: &mut Vec<Value>) {
+        let mut ids = suite::<Sha>("sha256", out);
+        ids.extend(suite::<Shake>("shake256", out));
+        // api ids: pairwise distinct, none a prefix of another
+        for i in 0..ids.len() {
+            for j in 0..ids.len() {
+                if i != j {
+                    let (a, b) = (&ids[i].1, &ids[j].1);
+                    let is_prefix = b.len() >= a.len() && &b[..a.len()] == a.as_slice();
+                    fact(out, &format!("not_prefix({}, {})", ids[i].0, ids[j].0), !is_prefix, String::new());
+                }
+            }
+        }
+        // every derived DST fits 255 octets and DSTs of different api ids differ
+        let suffixes: Vec<&[u8]> = vec![b"H2S_", b"MAP_MSG_TO_SCALAR_AS_HASH_", b"SIG_GENERATOR_SEED_", b"SIG_GENERATOR_DST_", b"KEYGEN_DST_", b"MESSAGE_GENERATOR_SEED"];
+        let mut dsts: Vec<(String, Vec<u8>)> = vec![];
+        for (n, a) in ids.iter() {
+            for s in suffixes.iter() {
+                let d = [a.as_slice(), s].concat();
+                fact(out, &format!("len({} || {}) <= 255", n, String::from_utf8_lossy(s)), d.len() <= 255, format!("{}", d.len()));
+                dsts.push((format!("{}||{}", n, String::from_utf8_lossy(s)), d));
+            }
+        }
+        let mut all_distinct = true;
+        for i in 0..dsts.len() {
+            for j in (i + 1)..dsts.len() {
+                if dsts[i].1 == dsts[j].1 {
+                    all_distinct = false;
+                    fact(out, &format!("distinct({}, {})", dsts[i].0, dsts[j].0), false, String::new());
+                }
+            }
+        }
+        fact(out, "all derived DSTs pairwise distinct", all_distinct, format!("{} DSTs", dsts.len()));
     }
 }
